@@ -83,6 +83,9 @@ pub enum Alt {
 }
 
 pub struct DiskState {
+    /// write-back-cache model: `Some(image as of the last successful flush())`.  Reads and
+    /// writes act on `data` (the cache); only flush() makes them durable.  None = write-through.
+    pub durable: Option<Vec<u8>>,
     pub alt: Option<Alt>,
     pub data: Vec<u8>,
     pub pos: u64,
@@ -116,6 +119,7 @@ pub struct SimDisk(pub Rc<RefCell<DiskState>>);
 impl SimDisk {
     pub fn new(data: Vec<u8>) -> SimDisk {
         SimDisk(Rc::new(RefCell::new(DiskState {
+            durable: None,
             alt: None,
             data,
             pos: 0,
@@ -467,6 +471,10 @@ impl Write for SimDisk {
                 Err(other("injected flush error"))
             }
             _ => {
+                if s.durable.is_some() {
+                    let snap = s.data.clone();
+                    s.durable = Some(snap);
+                }
                 s.record(Seam::Flush, pos, 0, 0, true);
                 Ok(())
             }
